@@ -62,7 +62,7 @@ def generate(rng, tier):
     n = 45 if tier == "quick" else 700
     cases = []
     D = sc.DAY
-    corpus = [c01.CORPUS[0], c01.CORPUS[1], c01.CORPUS[2], c01.CORPUS[3],
+    corpus = [c01.CORPUS[0], c01.CORPUS[1], c01.CORPUS[2], c01.CORPUS[3], c01.CORPUS[4],
               # one output fanning out behind a shared pass-through adapter to consumers with different steps
               {"comps": [{"kind": "T", "start": 0, "steps": [D], "initpull": False, "nout": 1, "inputs": [], "shared_out": [0]},
                          {"kind": "T", "start": 0, "steps": [D], "initpull": True, "nout": 0, "inputs": [{"src": [0, 0], "chain": []}]},
